@@ -26,7 +26,7 @@ type Tape struct {
 	Exchange string           `json:"exchange"`      // as | tgs | referral
 	Hop      int              `json:"hop,omitempty"` // referral: which TGS reply is attacked (0 = referral TGT, 1 = final)
 	Perturb  []refkdc.Perturb `json:"perturb,omitempty"`
-	Net      string           `json:"net,omitempty"` // "" | stale | dup | truncate | krberror
+	Net      string           `json:"net,omitempty"` // "" | stale | stale-within-exchange | dup | truncate | krberror
 	NetArg   int64            `json:"net_arg,omitempty"`
 	Addrs    bool             `json:"addresses,omitempty"` // client asks for addresses (noaddresses = false)
 	Client   string           `json:"client,omitempty"`    // "" = alice; alice/admin = a two-component principal
@@ -83,7 +83,7 @@ func singles() []single {
 			out = append(out, single{p: &refkdc.Perturb{Kind: p.kind, Arg: a}})
 		}
 	}
-	out = append(out, single{net: "stale"}, single{net: "dup"})
+	out = append(out, single{net: "stale"}, single{net: "dup"}, single{net: "stale-within-exchange"})
 	for _, k := range []int64{0, 1, 4, 30, -1, -20} {
 		out = append(out, single{net: "truncate", netArg: k})
 	}
